@@ -97,7 +97,7 @@ func c05Gen(rnd *rand.Rand, i int, srvs []c05Srv) (c05Case, c05Srv) {
 		c.BodyLen = 0
 	}
 	c.BodyKind = []string{"rand", "text", "runs", "zero"}[rnd.Intn(4)]
-	c.Encoding = []string{"", "", "gzip", "br", "lz4", "zst", "snz"}[rnd.Intn(7)]
+	c.Encoding = []string{"", "", "gzip", "br", "lz4", "zst", "snz", "gzip-multi"}[rnd.Intn(8)]
 	c.Level = 1 + rnd.Intn(9)
 	c.Type = []string{"text/html; charset=utf-8", "application/json", "image/png", "application/custom", "application/octet-stream"}[rnd.Intn(5)]
 	c.Cacheable = rnd.Intn(4) != 0
@@ -201,7 +201,7 @@ func sortedHeader(h http.Header) []string {
 }
 
 func c05(r *hx.Run) {
-	r.Rule = "cases: body length from {0,1,2,17,min-1,min,min+1,min+300,4 KiB,64 KiB,200 KB,(rarely 2 MiB)} x kind {random, text, long runs, zeros (ratio up to >1000x)} x upstream encoding {identity,gzip,br,lz4,zst,snz} (reference encoders self-checked) x content type x status {200,201,203,404,500} x cacheable or not x GET/POST, on six servers (min length default/1/100/64kb, custom filter, compress levels 1/9+11/out-of-range, tiny cache with store); paths: fetching request and waiters (burst of 3), later hits, hit after restore from the store (after eviction), hit-for-pass, passed, and hits on entries stored earlier in the run (after many other responses have been compressed); each request with its own Accept-Encoding from 13 plain lists. Compared: status, decoded body, Content-Encoding accepted (token match), Content-Length, end-to-end headers (multiset and order). Non-trivial/distinct = (path, upstream encoding, accept class, size class, kind, server)."
+	r.Rule = "cases: body length from {0,1,2,17,min-1,min,min+1,min+300,4 KiB,64 KiB,200 KB,(rarely 2 MiB)} x kind {random, text, long runs, zeros (ratio up to >1000x)} x upstream encoding {identity,gzip (single and multi-member),br,lz4,zst,snz} (reference encoders self-checked) x content type x status {200,201,203,404,500} x cacheable or not x GET/POST, on six servers (min length default/1/100/64kb, custom filter, compress levels 1/9+11/out-of-range, tiny cache with store); paths: fetching request and waiters (burst of 3), later hits, hit after restore from the store (after eviction), hit-for-pass, passed, and hits on entries stored earlier in the run (after many other responses have been compressed); each request with its own Accept-Encoding from 13 plain lists. Compared: status, decoded body, Content-Encoding accepted (token match), Content-Length, end-to-end headers (multiset and order). Non-trivial/distinct = (path, upstream encoding, accept class, size class, kind, server)."
 	r.Assume = []string{"Date, Connection, Content-Length, Content-Encoding, Age, X-Status and hop-by-hop headers are excluded from the header comparison", "br/lz4/zst/snz reference codecs are the libraries pike links"}
 	rnd := rand.New(rand.NewSource(r.Seed))
 	w, srvs, stores := c05World(r)
@@ -214,7 +214,19 @@ func c05(r *hx.Run) {
 		}
 		c := cur
 		orig := hx.PRNGBytes(f.ID, c.BodyLen, c.BodyKind)
-		enc, err := hx.Encode(c.Encoding, orig, c.Level)
+		var enc []byte
+		var err error
+		if c.Encoding == "gzip-multi" {
+			// a valid gzip stream of two members (cat a.gz b.gz)
+			c.Encoding = "gzip"
+			h := len(orig) / 3
+			enc = append(hx.GzipBytes(orig[:h], c.Level), hx.GzipBytes(orig[h:], c.Level)...)
+			if back, e := hx.GunzipBytes(enc); e != nil || !bytes.Equal(back, orig) {
+				err = fmt.Errorf("multi-member self-check failed")
+			}
+		} else {
+			enc, err = hx.Encode(c.Encoding, orig, c.Level)
+		}
 		if err != nil {
 			// the reference encoder cannot produce this stream (e.g. empty lz4 block): plain identity
 			skipped++
